@@ -173,20 +173,20 @@ class C06(Prop):
                 yield k2, {'s': ''.join(tup), 'w': 'tokens'}
         k += strgen.count_strings(strgen.TOKENS, 2, Lt)
         toks = strgen.TOKENS + strgen.HOSTILE_TOKENS
-        for j in range(30000 if q else 400000):
+        for j in range(30000 if q else 250000):
             k += 1
             if want(k):
                 rng = random.Random('%d/%d/c06c' % (seed, j))
                 yield k, {'s': strgen.random_string(rng, strgen.CHARS, Lc + 1, Lc + 4),
                           'w': 'chars-sampled'}
-        for j in range(36000 if q else 1500000):
+        for j in range(36000 if q else 800000):
             k += 1
             if want(k):
                 rng = random.Random('%d/%d/c06r' % (seed, j))
                 lo = Lt + 1
                 yield k, {'s': strgen.random_string(rng, toks, lo, 3 if j % 3 and q else 14),
                           'w': 'tokens-sampled'}
-        for j in range(16 if q else 1500):
+        for j in range(16 if q else 800):
             rng = random.Random('%d/%d/c06d' % (seed, j))
             src, _ = docgen.gen_doc(rng, common.cfg_general(j, 'quick'))
             if len(src) > 260:
